@@ -180,6 +180,13 @@ func init() {
 	hostileFixed = append(hostileFixed, "lbl\n"+strings.Repeat(";\n", 1000000)+"i for 2\ndat i, lbl\nrof\n")
 	hostileFixed = append(hostileFixed, "lbl"+strings.Repeat(":", 1300000)+"\ni for 2\ndat i\nrof\n")
 	hostileFixed = append(hostileFixed, "dat 0\n"+strings.Repeat("\n", 700000)+"lbl dat 1\n")
+	// many labels in front of one FOR, many names in its body (the renaming of block labels is a lookup per token)
+	b.Reset()
+	for i := 0; i < 7000; i++ {
+		fmt.Fprintf(&b, "l%d\n", i)
+	}
+	b.WriteString("i for 1\ndat 0" + strings.Repeat("+z", 7000) + "\nrof\nz equ 0\n")
+	hostileFixed = append(hostileFixed, b.String())
 	// one identifier of 256 KiB (the cost of a token is linear in its length)
 	hostileFixed = append(hostileFixed, strings.Repeat("a", 256<<10)+" dat 0\n")
 	hostileFixed = append(hostileFixed, "dat "+strings.Repeat("b", 256<<10)+"\n")
